@@ -250,6 +250,7 @@ type Op struct {
 	IO    bool // C09: the model is asked for the operation's I/O plan (`io` lines)
 	St    *StOp // C14: one raw call on a bare backing store (no image)
 	N     int64 // ftrunc: the image file is cut to N bytes by someone else (a partial copy or download)
+	Valid bool  // add: drawn from the valid stream (the library must accept it when a descriptor is free)
 	Lib   bool  // ftrunc inside a library history: reload read-write on the same backend afterwards
 	// filled in by the executor
 	Now int64
